@@ -62,6 +62,18 @@ func (Engine) Info(prop string) core.Info {
 			ThoroughRuns: 4000,
 			WatchdogSec:  600,
 		}
+	case "C17":
+		return core.Info{
+			Level:        "exploration",
+			Rule:         "one plan = a C01 scenario (messages 1 B - 40 KB, thorough up to 300 KB) with a recording StatusUpdater on both stations, in a -race build; every conn.Write blocks for a seeded simulated time (none, < 100 ms, 100-400 ms, 250-2100 ms) so the 250 ms send-side ticker and the receive-side notifier run at seed-chosen points of the transfer; conns with and without TxBufferLen/Flush. Schedules are timer-assigned, so the race detector's happens-before analysis is not polluted by simulator synchronisation; the recorder shares no lock with the session goroutine. Oracle: zero race reports (a report kills the worker and becomes C17/data-race/<functions>) and, after quiescence, per transferred message and direction: 0 <= BytesTransferred <= BytesTotal = compressed size, exactly one report with Done, none after it. Non-trivial: at least one message transferred and one report delivered. Distinct: distinct event-log hash.",
+			Real:         realCode,
+			Stub:         []string{"clock (testing/synctest)", "link with write pacing (sim/pipe)", "mailbox handler (ref/mbox)", "StatusUpdater (recorder)"},
+			Assumptions:  []string{"data-race freedom is judged by the Go race detector on the executions sampled", "library runs on the Go 1.26.8 standard library"},
+			QuickRuns:    2500,
+			ThoroughRuns: 40000,
+			WatchdogSec:  300,
+			Race:         true,
+		}
 	case "C16":
 		return core.Info{
 			Level:        "exploration",
@@ -89,6 +101,8 @@ func (Engine) Generate(prop, tier string, r *core.Rand, run int) any {
 		return genC03(tier, r)
 	case "C04":
 		return genC04(tier, r)
+	case "C17":
+		return genC17(tier, r)
 	}
 	return nil
 }
@@ -105,6 +119,8 @@ func (Engine) Execute(t *testing.T, prop string, plan json.RawMessage, trace boo
 		return execC03(t, prop, plan, trace)
 	case "C04":
 		return execC04(t, prop, plan, trace)
+	case "C17":
+		return execC17(t, prop, plan, trace)
 	}
 	var o core.Outcome
 	o.Violate(prop, "harness", "unknown-property", "engine fbbsim does not serve "+prop)
